@@ -120,12 +120,36 @@ func genMerge(repo string) {
 	// the per-project second pass (ProjectFiles): the helper that sorts the project's files and the two merges that use it
 	projectVisits := append(visits("langserver/check/check_second_project.go", "sortedProjectFiles"),
 		append(visits("langserver/check/check_second_project.go", "generateAllFristGlobalGMaps"), visits("langserver/check/check_second_project.go", "handleOtherFileInsertSub")...)...)
+	// the comparisons of resultSorter.Less (workspace/symbol), in source order: what every return statement compares
+	var lessKeys []string
+	{
+		pf, err := parser.ParseFile(fset, filepath.Join(repo, "langserver/check/check_lsp_symbol.go"), nil, 0)
+		if err != nil {
+			fail("parse check_lsp_symbol.go: %v", err)
+		}
+		for _, d := range pf.Decls {
+			fd, ok := d.(*ast.FuncDecl)
+			if !ok || fd.Body == nil || fd.Name.Name != "Less" || fd.Recv == nil || !strings.Contains(src(fd.Recv.List[0].Type), "resultSorter") {
+				continue
+			}
+			ast.Inspect(fd.Body, func(n ast.Node) bool {
+				if r, ok := n.(*ast.ReturnStmt); ok && len(r.Results) == 1 {
+					lessKeys = append(lessKeys, src(r.Results[0]))
+				}
+				return true
+			})
+		}
+		if len(lessKeys) == 0 {
+			fail("check_lsp_symbol.go: resultSorter.Less not found")
+		}
+	}
 	var b strings.Builder
 	b.WriteString("namespace LuaHelper.Gen\n\n/-- the if statements of the candidate loop of JudgeShouldInsertGlobalInfo: condition => action -/\n")
 	b.WriteString("def mergeConds : List String := " + leanStrList(conds) + "\n\n")
 	fmt.Fprintf(&b, "/-- FindThirdGlobalGInfo scans the candidate list from its last element downwards -/\ndef findScanBackward : Bool := %v\n\n", backward)
 	b.WriteString("/-- generateAllGlobalMaps: its loops over files and the sort between them -/\ndef globalVisits : List String := " + leanStrList(globalVisits) + "\n\n")
 	b.WriteString("/-- rebuidCreateTypeMap: its loops over files and the sort between them -/\ndef typeVisits : List String := " + leanStrList(typeVisits) + "\n\n")
+	b.WriteString("/-- resultSorter.Less: the comparisons it returns, in source order -/\ndef symbolLess : List String := " + leanStrList(lessKeys) + "\n\n")
 	b.WriteString("/-- sortedProjectFiles, generateAllFristGlobalGMaps, handleOtherFileInsertSub: their loops over files and the sort -/\ndef projectVisits : List String := " + leanStrList(projectVisits) + "\n\nend LuaHelper.Gen\n")
 	write("Merge.lean", b.String())
 }
